@@ -11,6 +11,9 @@ if TYPE_CHECKING:
 
 HEXBIN_SUFFIX = {"x", "X", "b", "B"}
 
+# Marker for unary minus in the token list; deliberately not a valid identifier so it can't clash with a field name
+UNARY_MINUS = "-u"
+
 
 class ExpressionTokenizer:
     def __init__(self, expression: str):
@@ -167,7 +170,7 @@ class Expression:
     }
 
     unary_operators: ClassVar[dict[str, Callable[[int], int]]] = {
-        "u": lambda a: -a,
+        UNARY_MINUS: lambda a: -a,
         "~": lambda a: ~a,
     }
 
@@ -182,7 +185,7 @@ class Expression:
         "*": 5,
         "/": 5,
         "%": 5,
-        "u": 6,
+        UNARY_MINUS: 6,
         "~": 6,
         "sizeof": 6,
     }
@@ -236,10 +239,10 @@ class Expression:
         for i in range(len(self.tokens)):
             if self.tokens[i] == "-":
                 if i == 0:
-                    self.tokens[i] = "u"
+                    self.tokens[i] = UNARY_MINUS
                     continue
-                if self.tokens[i - 1] in operators or self.tokens[i - 1] == "u" or self.tokens[i - 1] == "(":
-                    self.tokens[i] = "u"
+                if self.tokens[i - 1] in operators or self.tokens[i - 1] == "(":
+                    self.tokens[i] = UNARY_MINUS
                     continue
 
         i = 0
